@@ -16,8 +16,10 @@ EXPLANATION = (
     "skeleton: mode code, then execute() of every component once in list order, then every feedback, then robotPeriodic, and no "
     "execute() in disabled/test; C05.O4 the periodic list starts with robotPeriodic; C05.O5 every continuing iteration calls "
     "NotifierDelay.wait() exactly once on a delay armed from control_loop_wait_time (value flow, also through selector.run); "
-    "C05.O6 each mode function publishes its documented literal to /robot/mode before its loop.  Component order = declaration "
-    "order is C06.O1/C08.O4 (the list is built by appends in the type-hint loop)."
+    "C05.O6 each mode function publishes its documented literal to /robot/mode before its loop.  C05.O3 the component list is the "
+    "creations of the type-hint loop in loop order; C05.O7 on a concrete two-level robot hierarchy (typing.get_type_hints modelled "
+    "base-class-first as documented) the components are created in declaration order, base classes first.  A second period of every "
+    "mode function is analysed on the robot the first one left behind."
 )
 RULE = "one case = one path of a mode function (list lengths x driver-station answers x exits x configuration); compared token by token with the specification skeleton"
 EXHAUSTIVE = True
